@@ -17,7 +17,8 @@ class _Log(Hooks):
         super().post_step(step, level_number)
         L = step.levels[0]
         self.steps.append(dict(t=float(L.time), e=float(L.time + L.dt), dt=float(L.dt), u0=_h(L.u[0]), ue=_h(L.uend),
-                               restart=bool(step.status.get('restart'))))
+                               restart=bool(step.status.get('restart')), slot=int(step.status.slot),
+                               u0v=np.array(L.u[0], copy=True).ravel(), uev=np.array(L.uend, copy=True).ravel()))
 
 
 def _h(x):
@@ -38,11 +39,10 @@ def expected_count(t0, dt, tend):
     return n
 
 
-def run(case):
-    from pySDC.implementations.controller_classes.controller_nonMPI import controller_nonMPI
+def _description(case):
     from pySDC.implementations.problem_classes.TestEquation_0D import testequation0d
     from pySDC.implementations.sweeper_classes.generic_implicit import generic_implicit
-    t0, dt, tend, NP = case['t0'], case['dt'], case['tend'], case['NP']
+    dt = case['dt']
     desc = dict(problem_class=testequation0d, problem_params=dict(lambdas=np.array([-0.1]), u0=1.0), sweeper_class=generic_implicit,
                 sweeper_params=dict(num_nodes=2, quad_type='RADAU-RIGHT', QI='IE'), level_params=dict(dt=dt, restol=-1.0),
                 step_params=dict(maxiter=1))
@@ -50,17 +50,90 @@ def run(case):
         from harness.transfer import IdentitySpaceTransfer
         desc['sweeper_params']['num_nodes'] = [2, 1]
         desc['space_transfer_class'] = IdentitySpaceTransfer
-    c = controller_nonMPI(num_procs=NP, controller_params=dict(logger_level=50, dump_setup=False, hook_class=[_Log]), description=desc)
+    if case.get('ctrl') == 'paradiag':
+        from pySDC.implementations.sweeper_classes.ParaDiagSweepers import QDiagonalization
+        desc['sweeper_class'] = QDiagonalization
+        desc['sweeper_params'] = dict(num_nodes=2, quad_type='RADAU-RIGHT', initial_guess='spread')
+        desc['level_params'] = dict(dt=dt, restol=1e-9)
+        desc['step_params'] = dict(maxiter=30)
+    return desc
+
+
+def _run_mpi(case):
+    """controller_MPI on the simulated MPI, one rank per step of a block; the per-rank step logs are merged"""
+    import os
+    import sys
+    sim = os.path.join(os.path.dirname(os.path.abspath(__file__)), 'simmpi')
+    if sim not in sys.path:
+        sys.path.insert(0, sim)
+    from mpi4py import MPI
+    from pySDC.implementations.controller_classes.controller_MPI import controller_MPI
+    t0, tend, NP = case['t0'], case['tend'], case['NP']
+
+    def target(comm):
+        class L_(_Log):
+            pass
+        c = controller_MPI(controller_params=dict(logger_level=50, dump_setup=False, hook_class=[L_]), description=_description(case), comm=comm)
+        P = c.S.levels[0].prob
+        u0 = P.u_exact(0.0)
+        sizes = []
+        orig = c.restart_block
+
+        def rb(size, time, u, comm):
+            sizes.append(size)
+            return orig(size, time, u, comm)
+
+        c.restart_block = rb
+        uend, stats = c.run(u0=u0, t0=t0, Tend=tend)
+        return dict(steps=[h for h in c.hooks if isinstance(h, _Log)][0].steps, uend=_h(uend), init=_h(u0), last_size=sizes[-1] if sizes else 0, rank=comm.rank)
+
+    results, w, errors = MPI.run_world(NP, target, seed=case.get('sched', 0), policy='random', timeout=300)
+    errs = [e for e in errors if e is not None]
+    if errs or w.deadlock:
+        return None, None, None, (type(errs[0]).__name__ if errs else 'Deadlock')
+    log = []
+    for r in results:
+        log += r['steps']
+    nlast = results[0]['last_size']
+    rets = {r['uend'] for r in results if r['rank'] < nlast}
+    # ranks of the last block must agree on the returned value; a disagreement is reported as a foreign value id
+    ret = results[0]['uend'] if len(rets) == 1 else 'ranks-disagree'
+    return log, results[0]['init'], ret, None
+
+
+def run(case):
+    from pySDC.implementations.controller_classes.controller_nonMPI import controller_nonMPI
+    t0, dt, tend, NP = case['t0'], case['dt'], case['tend'], case['NP']
+    out = dict(exc=None)
+    if case.get('ctrl') == 'mpi':
+        log, init, ret_h, exc = _run_mpi(case)
+        if exc:
+            out['exc'] = exc
+            return out
+        return _project(case, out, log, init, ret_h)
+    desc = _description(case)
+    if case.get('ctrl') == 'paradiag':
+        from pySDC.implementations.controller_classes.controller_ParaDiag_nonMPI import controller_ParaDiag_nonMPI
+        c = controller_ParaDiag_nonMPI(num_procs=NP, controller_params=dict(logger_level=50, dump_setup=False, hook_class=[_Log], mssdc_jac=False, alpha=1e-4),
+                                       description=desc)
+        for prob in [S.levels[0].prob for S in c.MS]:
+            prob.init = tuple([*prob.init[:2]] + [np.dtype('complex128')])
+    else:
+        c = controller_nonMPI(num_procs=NP, controller_params=dict(logger_level=50, dump_setup=False, hook_class=[_Log]), description=desc)
     P = c.MS[0].levels[0].prob
     u0 = P.u_exact(0.0)
     init = _h(u0)
-    out = dict(exc=None)
     try:
         uend, stats = c.run(u0=u0, t0=t0, Tend=tend)
     except Exception as e:  # noqa
         out['exc'] = type(e).__name__
         return out
     log = [h for h in c.hooks if isinstance(h, _Log)][0].steps
+    return _project(case, out, log, init, _h(uend))
+
+
+def _project(case, out, log, init, ret_h):
+    t0, dt, tend = case['t0'], case['dt'], case['tend']
     steps = sorted([s for s in log if not s['restart']], key=lambda s: s['t'])
     floats = sorted({t0, tend} | {s['t'] for s in steps} | {s['e'] for s in steps})
     rank = {f: k + 1 for k, f in enumerate(floats)}
@@ -79,8 +152,12 @@ def run(case):
 
     for k, s in enumerate(steps):
         s['contig'] = True if k == 0 else bool(close(s['t'], steps[k - 1]['e']))
-    out.update(t0=rank[t0], tend=rank[tend], n_expected=expected_count(t0, dt, tend), init=cid(init), ret=cid(_h(uend)),
+        # ParaDiag solves the steps of a block simultaneously up to its residual tolerance: INSIDE a block the start value of a
+        # step equals the predecessor's end value only up to that tolerance (between blocks the value is copied)
+        s['chain_ok'] = bool(case.get('ctrl') == 'paradiag' and k > 0 and s['slot'] > 0
+                             and np.allclose(s['u0v'], steps[k - 1]['uev'], rtol=1e-6, atol=1e-9))
+    out.update(t0=rank[t0], tend=rank[tend], n_expected=expected_count(t0, dt, tend), init=cid(init), ret=cid(ret_h),
                steps=[dict(s=rank[s['t']], e=rank[s['e']], u0=cid(s['u0']), ue=cid(s['ue']), near_tend=bool(near(s['t'])),
-                           end_near_tend=bool(near(s['e'])), contig=s['contig'], first_ok=bool(close(s['t'], t0))) for s in steps],
+                           end_near_tend=bool(near(s['e'])), contig=s['contig'], chain_ok=s['chain_ok'], first_ok=bool(close(s['t'], t0))) for s in steps],
                raw=[(s['t'], s['dt']) for s in steps[-3:]])
     return out
